@@ -301,6 +301,14 @@ def crash_family(res, ctx, tag, kinds, n_quick, n_thorough, io_mix=(0, 0, 0, 0, 
             ops = [engine.open_line("d", cfg), "put 6b31 x11", "sync", "put 6b32 x" + "01" * 4000, "put 6b33 x33"]
             froms[len(items)] = 4
             items.append((len(items), "double-crash", io, ops, cfg))
+    if tag == "C07":
+        # directed: a Merge that ABANDONS itself (ErrMergeFileIDConflict: its output would need the id of a file that did not take
+        # part - here because an oversized record makes the merge instance leave an empty file behind, depending on the order in which
+        # the file map is walked).  A refusal is an outcome the caller can handle; every crash point of it must still recover everything
+        cfg = {"fs": 4096, "sync": 1, "bps": 4096, "idx": 2, "io": 0, "shards": 1}
+        ops = ["open d 65536 0 0 1 0 5000", "put d08d872f95ee p1:1224", "close", "open d 4096 1 4096 2 0 1", "put 514c p2:127",
+               "put 4257ff82 p3:4325", "merge", "put 514d p4:50", "merge"]
+        items.append((len(items), "merge-abandoned", 0, ops, cfg))
 
     def job(it):
         i, kind, io, ops, cfg = it
